@@ -85,11 +85,14 @@ def _worker(args):
                     nfail += 1
                     if len(fails) < 40:
                         fails.append(f)
-                line = r.get("line")
-                if line is not None and out is not None:
-                    out.write(json.dumps(line, separators=(",", ":")))
-                    out.write("\n")
-                    nlines += 1
+                lines = r.get("lines")
+                if lines is None:
+                    lines = [r["line"]] if r.get("line") is not None else []
+                if out is not None:
+                    for line in lines:
+                        out.write(json.dumps(line, separators=(",", ":")))
+                        out.write("\n")
+                        nlines += 1
                 if len(samples) < 2 and r.get("sample") is not None:
                     samples.append(r["sample"])
     finally:
